@@ -18,6 +18,9 @@ mod action;
 
 pub mod remapper;
 
+#[cfg(feature = "verif")]
+pub mod verif;
+
 
 /// NOT PART OF PUBLIC API!
 ///
